@@ -169,6 +169,7 @@ func vkNewNode(ctx context.Context, store *vkStore) (*vkNode, error) {
 		return nil, err
 	}
 	node.unconfTxChannel.Open(100)
+	node.outgoing.Open(1000)
 	node.SubscribePushDatas(ctx, [][]byte{vkSubscribed()})
 	node.state.SetStartHeight(0)
 	return &vkNode{node: node, rec: rec, store: store, fetcher: f}, nil
